@@ -433,13 +433,16 @@ class AppNamespace(object):
 
     def _summarize_mailbox(self, side_rows, delete_time, pruned):
         times = sorted([row["added"] for row in side_rows])
-        started = times[0]
+        # a crash between the two commits of the first claim/open leaves a
+        # mailbox with no sides ("quiet", below)
+        first = times[0] if times else delete_time
+        started = first
         if self._blur_usage:
             started = self._blur_usage * (started // self._blur_usage)
         waiting_time = None
         if len(times) > 1:
             waiting_time = times[1] - times[0]
-        total_time = delete_time - times[0]
+        total_time = delete_time - first
 
         num_sides = len(times)
         if num_sides == 0:
